@@ -281,4 +281,65 @@ PROPS = {
                  'real code by the monitor',
                  'LCM mode: the stream-open metadata rewrite is C07 (compared here at `begin`); the relay machine is the same'],
  'timeout': {'quick': 900, 'thorough': 7200}},
+    "C10": {'engine': 'TestC10',
+ 'lean_modules': ['S2S.Props.C10'],
+ 'required_theorems': ['C10_conservation',
+                       'C10_within_limit',
+                       'C10_failure_returns_slot',
+                       'C10_death_returns_slot',
+                       'C10_progress_bounded',
+                       'C10_progress_full',
+                       'C10_progress_exists',
+                       'C10_refuted_late_add',
+                       'C10_refuted',
+                       'C10_shutdown_partial',
+                       'C10_shutdown_fixed',
+                       'C10_shutdown_terminates'],
+ 'rule': 'scripts of pool ops (conn ok|err|sessfail, peer ping-ok|silent|mute|slow|eof|garbage, die k remote|local|stall, wait, cancel, heal, end) '
+         'against the real mux.NewMuxProvider + mux.NewCustomMultiMuxManager with a scripted fake connProvider over net.Pipe (harness = real yamux '
+         "peer / silent / mute / slow / closing / garbage) inside one testing/synctest bubble (synctest.Wait = quiescence, yamux's 10 s/30 s timers "
+         'on the virtual clock), both roles; every script ends with heal (pool must refill to N), cancel, end (everything must be closed). '
+         'Bounded-exhaustive part: every applicable op from every distinct abstract pool state (observation modulo session ids) reachable within 12 '
+         'ops, N in {1,2}, both roles (quick: a seeded slice of the frontier within a budget; the evidence says whether it completed); random part: '
+         'scripts to 60 ops / N<=6 (quick), 200 ops / N<=8 (thorough). Plus the real mux.NewMuxReceiverProvider on loopback TCP with real dials '
+         '(fixed + random scripts, real time, reduced observation). Per op the observation (registered keys, CanAcceptConnections, provider phase, '
+         "open/total connections, open sessions, IsClosed) is compared with the Lean model's big-step run. Non-trivial = at least one fault op "
+         '(failed attempt, session death, cancel before the epilogue); distinct by op list.',
+ 'assumptions': ['semaphore.Weighted (x/sync v0.20.0): Acquire fails once the context is done; yamux v0.1.2: Session.Close closes the conn, a '
+                 'session whose peer vanishes/sends garbage/stops answering keep-alives shuts itself down, Ping fails on a shut-down session; child '
+                 'contexts end with their parent (modelled, validated by the engine on the real libraries)',
+                 'NewConnection, sessionFn and Ping always return (they do: dial/accept time out or fail on listener close, yamux.Client/Server do '
+                 "no I/O, Ping has a 10 s timeout) - this is what makes connOk/connErr, sessOk/sessErr, pingOk/pingErr 'obligatory' in the "
+                 'definition of a maximal execution',
+                 'progress is stated for benign continuations (attempts succeed, pending clean-ups run, no further deaths or cancel); real-time '
+                 "back-off of the establisher's dial loop is not modelled"],
+ 'timeout': {'quick': 900, 'thorough': 3600}},
+    "C11": {'engine': 'TestC11',
+ 'lean_modules': ['S2S.Props.C11'],
+ 'required_theorems': ['C11_sync',
+                       'C11_keys_distinct',
+                       'C11_dialer_exact',
+                       'C11_dialer_unknown_key',
+                       'C11_can_make_calls',
+                       'C11_served_only_by_registered_partial',
+                       'C11_failover_partial',
+                       'C11_unavailable_partial',
+                       'C11_resume_partial'],
+ 'rule': 'histories of session-table updates against the real grpcutil.MultiClientConn (production dial options: round_robin, s2s-proxy codec) '
+         'registered as connection listener of the real multiMuxManager + muxProvider, fed by the C10 fakes (real yamux sessions over net.Pipe, the '
+         'harness serves an echo gRPC service on its end of every session that reports which session served), all inside one testing/synctest '
+         'bubble. Ops: add, remove k remote|local, rpc (unary, 2 s deadline), inflight (a call is held in its handler while the serving session is '
+         'killed), cancel. Exhaustive: every add/remove history of up to 8 (thorough: 10) effective updates for pool sizes 1-3 (thorough: 1-4) with '
+         'an rpc before and after every update; random: histories to 60 (150) ops, pools to 6 (8). Compared per op: registered keys, the client '
+         "connection's map keys (parsed from Describe()), the sessions on which the client connection holds a transport (yamux streams accepted by "
+         "the harness's peers), CanMakeCalls, rpc outcome class. Monitor: a call is served only by a currently registered session; with >= 1 "
+         'registered it is served; with none (after an update) it fails Unavailable without waiting; after a new session appears it is served again; '
+         'an in-flight call on a dying session ends with an error promptly. Non-trivial = at least 2 effective updates; distinct by op list.',
+ 'assumptions': ["gRPC's round_robin balancer / resolver plumbing (v1.80.0) is modelled, not verified: 'a ready endpoint of the current resolver "
+                 "state is picked iff one exists' is the explicit hypothesis structure Balancer of the *_partial theorems; the engine validates it "
+                 'on the real gRPC on every run',
+                 "observations are taken at quiescence (synctest.Wait): the property's 'once a session-list update has been applied'",
+                 "before the first update the resolver has produced no state and calls wait for their deadline ('blocked'); the property makes no "
+                 'claim about that window'],
+ 'timeout': {'quick': 600, 'thorough': 3600}},
 }
